@@ -726,11 +726,21 @@ def bld_stream(ctx, which, flags_choices, n_quick, n_thorough, **kw):
         return any(a >= L for (_, _, act, _) in st for a in act) or any(op in ("P",) or op[:1] in ("E", "K", "J") for (op, _, _, _) in st)
 
     def shrink(case):
-        head = case.split(";exp=")[0]
-        for c in shrink_ops(head):
+        # only PREFIXES of the scenario: the generator's guards (what may follow what) depend on the state the prefix leads to, so
+        # every prefix of a generated scenario is one the generator could have produced — dropping operations from the middle is
+        # not (seen once: an armed readiness failure left outside its back-pressure episode made the predicate fail for a reason
+        # that has nothing to do with the code)
+        head0, ops = case.split(";exp=")[0].split("ops=", 1)
+        toks = ops.split(" ")
+        n = len(toks)
+        lens, k = [], n // 2
+        while k < n and len(lens) < 8:
+            lens.append(max(1, k))
+            k += max(1, (n - k) // 2)
+        for k in sorted(set(lens)):
             try:
-                yield bld_annotate([c])[0]
-            except Exception:  # noqa: BLE001  (a shrunk scenario that finishes a connection not in progress is not a scenario)
+                yield bld_annotate([head0 + "ops=" + " ".join(toks[:k])])[0]
+            except Exception:  # noqa: BLE001
                 continue
 
     st = Stream("bld", "bld", cases, compare=lambda i, m: bld_strip(i) == bld_strip(m), monitor=monitor, nontrivial=nontrivial,
